@@ -24,7 +24,7 @@ Lemma geq_nil : forall i, geq i [] = O.
 Proof. reflexivity. Qed.
 
 Lemma geq_cons : forall i y fs,
-  geq i (y :: fs) = ((if i <=? y then 1 else 0) + geq i fs)%nat.
+  geq i (y :: fs) = ((if (i <=? y)%Z then 1 else 0) + geq i fs)%nat.
 Proof.
   intros i y fs. unfold geq. cbn [filter]. destruct (i <=? y); reflexivity.
 Qed.
@@ -217,7 +217,7 @@ Proof.
         rewrite Hmem in Ht. discriminate Ht. }
       assert (Hnot0 : mem_z (pr_i pr) fs0 = false).
       { destruct (mem_z (pr_i pr) fs0) eqn:E; [|reflexivity].
-        assert (Ht : mem_z (pr_i pr) fs = true) by (apply Hfs; left; reflexivity).
+        assert (Ht : mem_z (pr_i pr) fs = true) by (apply Hfs; left; exact E).
         rewrite Hmem in Ht. discriminate Ht. }
       assert (Hinmid : forall n, In n (results l1 ++ pr_i pr :: results l2) <->
                                  (n = pr_i pr \/ In n (results l1 ++ results l2))).
